@@ -385,6 +385,28 @@ def starts_with_dot_closure(ast):
 def has_class_subtraction(ast):
     return any(n[0] == 'cls' and n[3] is not None for n in walk(ast))
 
+def nvar(node, mult=1):
+    """number of variable-quantifier instances after expanding enclosing counted repetitions (an unbounded one counts 3 copies):
+    a backtracking matcher needs about C(n + nvar, nvar) steps on a failing subject of length n even when no quantifier nests"""
+    k = node[0]
+    if k == 'rep':
+        var = node[3] is None or node[3] != node[2]
+        copies = 3 if node[3] is None else max(1, node[3])
+        return (mult if var else 0) + nvar(node[1], mult * min(copies, 6))
+    if k == 'grp': return nvar(node[1], mult)
+    if k in ('alt', 'seq'): return sum(nvar(c, mult) for c in node[1])
+    return 0
+
+def backtrack_len_bound(ast, budget=2000000):
+    """largest subject length in (40, 24, 16, 12, 9, 7, 5) whose estimated backtracking cost stays under `budget`"""
+    import math
+    nv = nvar(ast)
+    cap = 40
+    if is_risky(ast): cap = 7 if quant_depth(ast) >= 3 else 12
+    for n in (40, 24, 16, 12, 9, 7, 5):
+        if n <= cap and math.comb(n + nv, nv) <= budget: return n
+    return 5
+
 def first_success_quantifier(ast):
     """pattern contains a quantifier that Xerces compiles to closure/question operations (everything except '?' and {n})"""
     for n in walk(ast):
